@@ -154,12 +154,12 @@ VARIANTS = [
      "old": "    tries_left: int = 10\n", "new": "    tries_left: int = 11\n"},
     # ------------------------------------------------------------------ strengthening round
     {"name": "R5 cadence compares the .seconds component of the elapsed time", "file": BC, "expect": "C19.R5",
-     "old": "            if dt.datetime.now() - resend_info.last_resent < dt.timedelta(seconds=self.resend_every):\n",
-     "new": "            waited = (dt.datetime.now() - resend_info.last_resent).seconds\n"
+     "old": "            if _utcnow() - resend_info.last_resent < dt.timedelta(seconds=self.resend_every):\n",
+     "new": "            waited = (_utcnow() - resend_info.last_resent).seconds\n"
             "            if waited < self.resend_every:\n"},
     {"name": "P R5 cadence through total_seconds()", "file": BC, "expect": "silent",
-     "old": "            if dt.datetime.now() - resend_info.last_resent < dt.timedelta(seconds=self.resend_every):\n",
-     "new": "            if (dt.datetime.now() - resend_info.last_resent).total_seconds() < self.resend_every:\n"},
+     "old": "            if _utcnow() - resend_info.last_resent < dt.timedelta(seconds=self.resend_every):\n",
+     "new": "            if (_utcnow() - resend_info.last_resent).total_seconds() < self.resend_every:\n"},
     {"name": "R6 notify walks the live subscriber list through iter()", "file": "hippolyzer/lib/base/events.py", "expect": "C19.R6",
      "old": "        for handler in self.subscribers[:]:\n",
      "new": "        for handler in iter(self.subscribers):\n"},
